@@ -198,8 +198,8 @@ def build(tier):
     P.contract()  # tabulated once here, inherited by every forked explorer
     q = tier == "quick"
     hs = [
-        Harness("send-recv", send_recv(["2.2"] if q else ["1.4", "2.2"], 1 if q else 2, 2,
-                                       (0,) if q else (0, 1, 4)),
+        Harness("send-recv", send_recv(["2.2"] if q else ["1.4", "2.2"], 1, 2,
+                                       (0,) if q else (0, 1)),
                 {"prefix": "0..2 levels of <= 2 chars over [a-z0-9-]", "header": "in range",
                  "inbound_levels": "1 symbolic digit (node: 1..2)", "qos": "0..2"},
                 goals=["roundtrip"], doc="publish == out_prefix/n/c/t/a/s; inbound decodes back"),
